@@ -208,10 +208,11 @@ def check(ctx):
         v = y.data.get('value')
         for a in flat(v) if v is not None else []:
             if isinstance(a, TupleT) and a.items:
-                ev = strip(a.items[0])
-                val = ev.fields.get('_value') if isinstance(ev, Obj) else None
-                if isinstance(val, Const) and 'skipped' in str(val.value):
-                    skips.append((y, val.value))
+                for ev in flat(a.items[0]):       # (the event may come out of a table)
+                    ev = strip(ev)
+                    val = ev.fields.get('_value') if isinstance(ev, Obj) else None
+                    if isinstance(val, Const) and 'skipped' in str(val.value):
+                        skips.append((y, val.value))
     ctx.ob('R08.4', 'the scanner announces skipped top trash directories',
            len(set(v for y, v in skips)) >= 2, construct='trash_dirs_scanner',
            text='skip events',
